@@ -34,9 +34,9 @@ class Stepper:
         from comb_spec_searcher.class_db import ClassDB
 
         self.ctx = ctx
-        self.compressed = bool(config.get("compressed"))
+        self.compressed = int(config.get("compressed") or 0)  # 0 plain, 1 all compressed, 2 mixed
         self.pool = config["pool"]
-        self.cls_type = U.WCB if self.compressed else U.WC
+        self.cls_type = {0: U.WC, 1: U.WCB, 2: U.WCM}[self.compressed]
         self.db = ClassDB(self.cls_type)
         self.model = {}  # class -> label
         self.order = []  # label -> class
@@ -174,6 +174,10 @@ class Stepper:
                 ctx.check(l in db and fresh in db, "contains", f"final scan: {l} / {c!r} not in db")
                 ctx.check(db.is_empty(fresh) == c.is_empty(), "is_empty", f"final scan: is_empty({c!r}) wrong")
             except Exception as e:
+                from vf.runner import Violation
+
+                if isinstance(e, Violation):
+                    raise
                 ctx.fail("final-scan", f"final scan raised {describe_exc(e)}", "final-scan/raises")
         try:
             labels = sorted(db)
@@ -201,7 +205,7 @@ def _machine(tier):
         config=st.fixed_dictionaries(
             {
                 "pool": st.lists(gen.class_desc(tier=tier), min_size=2, max_size=8),
-                "compressed": st.booleans(),
+                "compressed": st.sampled_from([0, 1, 1, 2, 2]),
             }
         ),
         ops={
